@@ -1259,6 +1259,11 @@ class Interp:
         if isinstance(obj, SExc):
             obj.fields[attr] = v
             return
+        if isinstance(obj, Sym) and isinstance(obj.kind, Atom):
+            hook = self.pack.write_hooks.get((obj.kind.name, attr))
+            if hook:
+                hook(self, obj, attr, v)
+                return
         self.unsupported(node, "attribute store on %r" % (obj,))
 
     def assign_target(self, t, v, env):
